@@ -419,12 +419,49 @@ def eval_deep_chain(n):
     return fails
 
 
+def eval_existing_table():
+    """The direct entry point build_schemes(data, existing=table) with a table the caller keeps across calls: a call that
+    is refused (one definition of the set has an unknown base) leaves the caller's table as it was, and a later load of a
+    corrected definition under the same annotation resolves to the corrected layout."""
+    from maflib.column_types import get_column_types
+    from maflib.scheme_factory import build_schemes, load_all_scheme_data
+    where = {"kind": "existing-table"}
+    first = [{"version": "t-1.0.0", "annotation": "t-1.0.0", "extends": None, "filtered": None, "columns": [["Key", "StringColumn"], ["Pos", "NullableIntegerColumn"], ["Depth", "NullableIntegerColumn"]]},
+             {"version": "t-1.0.0", "annotation": "t-1.0.0-x", "extends": "no-such-base", "filtered": None, "columns": [["n", "NullableStringColumn"]]}]
+    later = [{"version": "t-1.0.0", "annotation": "t-1.0.0", "extends": None, "filtered": None, "columns": [["Pos", "NullableIntegerColumn"], ["Caller", "StringColumn"], ["Score", "NullableFloatColumn"]]}]
+    table = {}
+
+    def build(defs):
+        with tempfile.TemporaryDirectory() as d:
+            data = load_all_scheme_data(filenames=write_defs(defs, d), column_types=get_column_types())
+            return build_schemes(data=data, existing=table)
+    try:
+        build(first)
+        return []                    # (the set with an unknown base was accepted: the other families judge that)
+    except Exception:  # noqa
+        pass
+    if table:
+        return [dict(where, what="a refused build_schemes(data, existing=table) call left %s in the caller's table" % sorted(table))]
+    try:
+        res = build(later)
+    except Exception as e:  # noqa
+        return [dict(where, what="after a refused call, loading a corrected definition with the caller's table failed with %s" % exc_name(e))]
+    names = res["t-1.0.0"]().column_names() if "t-1.0.0" in res else None
+    if names != ["Pos", "Caller", "Score"]:
+        return [dict(where, what="after a refused call, the corrected definition of t-1.0.0 resolves to %s instead of its own columns" % names)]
+    return []
+
+
 def returned_list_cases(ctx, out):
     for ann in ["gdc-1.0.0", "gdc-1.0.0-public", "gdc-2.0.0-aliquot-merged-masked"]:
         out.evaluations += 1
         out.failures += eval_returned_lists(ann)
         out.distribution["scheme accessors' lists edited by the caller"] += 1
         out.nontrivial.add(("returned-list", ann))
+    out.evaluations += 1
+    out.failures += eval_existing_table()
+    out.distribution["caller-kept table of built schemes across a refused call"] += 1
+    out.nontrivial.add(("existing-table",))
     out.evaluations += 1
     out.failures += eval_deep_chain(1100)
     out.distribution["inheritance chain of 1100 definitions, base first and leaf first"] += 1
@@ -609,6 +646,12 @@ def shipped_orders(ctx, out, rng):
 
 
 def replay_case(ctx, failure):
+    if failure.get("kind") == "existing-table":
+        fails = eval_existing_table()
+        print("replay C14: table = {}; build_schemes(<a buildable definition + one with an unknown base>, existing=table) is refused; then build_schemes(<corrected definition of the same annotation>, existing=table)")
+        for x in fails:
+            print("  oracle: %s" % x["what"])
+        return fails
     if failure.get("kind") == "deep-chain":
         fails = eval_deep_chain(int(failure.get("levels", 1100)))
         print("replay C14: a chain of %d definitions, each extending the one before; load_all_scheme_data + build_schemes + validate_schemes, base first and leaf first" % int(failure.get("levels", 1100)))
